@@ -80,6 +80,9 @@ CLAIMS = {
          "no later digit carries its number and that number has been written an odd number of times (an opening that is never answered); build_succeeds_iff — for every conformant history build returns a graph IFF no step meets a JoinDefect and every ring number "
          "is written an even number of times (invariants: errors are exactly the defects met; every placeholder is the record of an unanswered opening digit; parity of each number = open or not). "
          "For the traversal's own events (C08's pairing clause): walk_joins_balanced — every ring number is written an even number of times and no closing digit meets a defect; walk_join_pairs_are_bonds — the two atoms a ring number is written on are bonded in the graph (Lemmas/JoinPairL.lean). "
+         "WITHOUT BUILDER STATE IN THE STATEMENT (Lemmas/JoinReasonL.lean: HistDefect, equivalent to JoinDefect under the prefix invariant): build_join_error_is_a_written_closure — the pair (a, c) and the reason are read off the written events alone "
+         "(Spec.replay gives the head atom a; Spec.scan the open digit the closing digit pairs with, written at head c; the reason is a = c, an earlier event already contributing a bond between them (Spec.contribH), or irreconcilable written kinds); "
+         "build_succeeds_iff_written — build succeeds IFF no ring digit of the history meets such a written-history defect and every number is written an even number of times; walk_joins_balanced_written / walk_join_pairs_are_bonds_written — the same for the traversal's events. "
          "Still decided on every run as well by an oracle that recomputes unmatched digits and problematic closures from the history without the builder.",
          "Lean 4 proof (builder invariant: resolved bonds form a well-formed simple graph, by induction over conformant histories) + differential correspondence of builder results", "4.10"),
  'C11': ("Theorems in Purr/Props/C11.lean, for EVERY adjacency list: validate g = none iff WellFormed g (independent definition in Purr/Spec/WellFormed.lean: targets exist, no self bond, no pair bonded twice, "
@@ -93,7 +96,10 @@ CLAIMS = {
          "schedules its whole list; on re-reading, the builder records the arrival bond first and appends every later bond / ring digit at the end of the head's list, in place. Additionally: order oracle on the real "
          "round trip (each re-read bond list must equal the original with the arrival bond moved to the front, under the depth-first order defined by the property text) and S-graph correspondence over every order of every bond list of all small graphs. "
          "THE ARRIVAL BOND PINNED DOWN (substituent_order_pinned, components_start_at_lowest_unvisited; Lemmas/OrderL.lean, RelabelledP): an atom that starts a component keeps its whole list (when a component starts no visited atom has a bond to an unvisited one, so nothing can be an arrival bond); "
-         "for every other atom the one bond moved to the front leads to an atom visited earlier; at every root event every lower-numbered atom has been visited and everything visited later has a higher number.",
+         "for every other atom the one bond moved to the front leads to an atom visited earlier; at every root event every lower-numbered atom has been visited and everything visited later has a higher number. "
+         "THE VISIT ORDER IS THE TEXTBOOK DEPTH-FIRST PREORDER (visit_order_is_depth_first; Spec/Dfs.lean, Lemmas/DfsL.lean): the order under which all these theorems renumber the atoms equals Spec.dfsOrder — defined from the adjacency list and the atoms seen so far only "
+         "(start atoms tried as 0, 1, ...; a bond list gone through in list order; a bond to a new atom visits it and everything under it before the next bond is looked at), i.e. 'components start at the lowest-numbered unvisited atom and children are visited in list order' said outright — "
+         "and it is the order in which the atom events reach the follower.",
          "Lean 4 proof of the scheduling-order lemmas of traversal and builder + exact bond-list order oracle on the real round trip", "4.12"),
  'C13': ("Theorems in Purr/Props/C13.lean about the ring-number pool, for every sequence of hits (every reachable interleaving of openings and closings): the pool invariant "
          "(open and returned numbers partition 1..counter-1, no duplicates, one entry per unordered pair) holds in every reachable state; an opening hit returns the least number >= 1 not currently open; "
